@@ -687,7 +687,39 @@ pub fn selftest_determinism(props: &[Box<dyn Property>], runs: u64, seed: u64, t
                     out.lock().unwrap().push(format!("{} {} {:016x}", p.id(), idx, fa));
                     if fa != fb {
                         bad.fetch_add(1, Ordering::SeqCst);
-                        eprintln!("NONDETERMINISM: {} index {} seed {}: {:x} vs {:x}", p.id(), idx, seed, fa, fb);
+                        let d = |t: &Trace| format!("steps={} tx={} rx={} ev={} api={} fatal={:?}", t.steps.len(), t.tx.len(), t.rx.len(), t.events.len(), t.api.len(), t.fatal.iter().map(|f| format!("{}@{}:{}", f.kind, f.t, f.detail.chars().take(60).collect::<String>())).collect::<Vec<_>>());
+                        eprintln!("NONDETERMINISM: {} index {} seed {}: {:x} vs {:x}\n   A: {}\n   B: {}", p.id(), idx, seed, fa, fb, d(&a), d(&b));
+                        for (k, (x, y)) in a.tx.iter().zip(b.tx.iter()).enumerate() {
+                            if x.t != y.t || x.if_index != y.if_index || x.bytes != y.bytes {
+                                eprintln!("   first differing tx {k}: A t={} if={:?} {} | B t={} if={:?} {}", x.t, x.if_index, x.msg.as_ref().map(crate::wire::summarize).unwrap_or_default(), y.t, y.if_index, y.msg.as_ref().map(crate::wire::summarize).unwrap_or_default());
+                                break;
+                            }
+                        }
+                        for (k, (x, y)) in a.rx.iter().zip(b.rx.iter()).enumerate() {
+                            if x.t_arrive != y.t_arrive || x.fate != y.fate || x.step != y.step {
+                                eprintln!("   first differing rx {k}: A {:?} {:?} {:?} | B {:?} {:?} {:?}", x.t_arrive, x.fate, x.step, y.t_arrive, y.fate, y.step);
+                                break;
+                            }
+                        }
+                        for (k, (x, y)) in a.events.iter().zip(b.events.iter()).enumerate() {
+                            if x.t != y.t || x.slot != y.slot || format!("{:?}", x.ev) != format!("{:?}", y.ev) {
+                                eprintln!("   first differing event {k}: A t={} slot={} {:?} | B t={} slot={} {:?}", x.t, x.slot, x.ev, y.t, y.slot, y.ev);
+                                break;
+                            }
+                        }
+                        for (k, (x, y)) in a.api.iter().zip(b.api.iter()).enumerate() {
+                            if x.outcome != y.outcome {
+                                eprintln!("   first differing api {k}: A {:?} | B {:?}", x.outcome, y.outcome);
+                                break;
+                            }
+                        }
+                        // first differing step
+                        for (k, (x, y)) in a.steps.iter().zip(b.steps.iter()).enumerate() {
+                            if x.d != y.d || x.t != y.t || x.n_rx != y.n_rx || x.n_tx != y.n_tx || x.n_ev != y.n_ev || x.timeout != y.timeout || x.cause != y.cause {
+                                eprintln!("   first differing step {k}: A {:?} | B {:?}", x, y);
+                                break;
+                            }
+                        }
                     }
                 });
             }
